@@ -15,7 +15,11 @@ Fixpoint setp (l : list ptr) (i : nat) (v : ptr) : list ptr :=
   match l, i with [], _ => [] | _ :: r, O => v :: r | x :: r, S j => x :: setp r j v end.
 Definition peq (a b : ptr) : bool := match a, b with Some x, Some y => Nat.eqb x y | None, None => true | _, _ => false end.
 
-Inductive pop := PBreak (p : nat) | PSetEnds (f l : ptr) | PReverse.
+Inductive pop := PBreak (p : nat) | PSetEnds (f l : ptr) | PReverse
+  | PAddEnd (e : nat) (n : ptr) (atend : bool)      (* Segment::addLineEnd: the new slot e goes before n, or (atend) after m_last *)
+  | PDelEnd (e : nat).                              (* Segment::delLineEnd(e), freeSlot(e) included *)
+(* a slot number the link arrays have not seen yet: a fresh slot has null links *)
+Definition grow (l : list ptr) (i : nat) : list ptr := l ++ repeat None (S i - length l).
 Inductive pres := POk (s : pstate) | PNull | PHang.     (* PNull: the code would dereference a null pointer; PHang: a loop that does not end *)
 
 Definition is_mark (marks : list bool) (i : nat) : bool := nth i marks false.
@@ -96,13 +100,45 @@ Definition papply (marks : list bool) (s : pstate) (o : pop) : pres :=
                 end
   | PSetEnds f l => POk (mkp (p_next s) (p_prev s) f l)
   | PReverse => preverse marks s
+  | PAddEnd e n atend =>
+      let nx := setp (grow (p_next s) e) e None in               (* newSlot(): next and prev are null *)
+      let pv := setp (grow (p_prev s) e) e None in
+      if atend then
+        match p_last s with                                      (* nSlot = m_last; eSlot->prev(nSlot); nSlot->next(eSlot) *)
+        | Some l => POk (mkp (setp nx l (Some e)) (setp pv e (Some l)) (p_first s) (p_last s))
+        | None => PNull
+        end
+      else
+        match n with                                             (* eSlot->next(nSlot); eSlot->prev(nSlot->prev()); nSlot->prev(eSlot) *)
+        | Some nn => POk (mkp (setp nx e (Some nn)) (setp (setp pv e (getp pv nn)) nn (Some e)) (p_first s) (p_last s))
+        | None => PNull
+        end
+  | PDelEnd e =>
+      let nxt := getp (p_next s) e in let prv := getp (p_prev s) e in
+      let linked :=
+        match nxt with
+        | Some n =>                                              (* nSlot->prev(s->prev()); if (s->prev()) s->prev()->next(nSlot) *)
+            Some (match prv with Some q => setp (p_next s) q (Some n) | None => p_next s end, setp (p_prev s) n prv)
+        | None =>                                                (* s->prev()->next(NULL) *)
+            match prv with Some q => Some (setp (p_next s) q None, p_prev s) | None => None end
+        end in
+      match linked with
+      | None => PNull
+      | Some (nx, pv) =>
+          (* freeSlot: m_last / m_first step off the slot (reading its own links, which delLineEnd left alone), then the slot is reset *)
+          let l' := if peq (p_last s) (Some e) then prv else p_last s in
+          let f' := if peq (p_first s) (Some e) then nxt else p_first s in
+          POk (mkp (setp nx e None) (setp pv e None) f' l')
+      end
   end.
 
 (* ---- the control of Segment::justify over the direction word m_dir (the flags given to gr_make_seg; bit 6 is toggled by every
    reverseSlots call), as recorded: the call reverses first when the text direction differs from the font's and the font has a bidi
    pass setting (outer), positionSlots reverses around its work when currdir() differs from its isRtl argument — which justify passes
    as the whole word m_dir converted to bool (inner) — and the outer reversal is undone at the end.
-   The skeleton of a call that does not return early, true = reverseSlots, false = the m_first / m_last bracket:  r? se (r r)? se r? *)
+   The skeleton of a call that does not return early, true = reverseSlots, false = the m_first / m_last bracket:  r? se (r r)? se r?
+   (in a font with line-end contextuals two addLineEnd calls precede the first bracket and two delLineEnd calls the second; they are
+   replayed as PAddEnd / PDelEnd and are not part of the skeleton) *)
 From Coq Require Import NArith.
 Definition currdir (d : N) : bool := xorb (N.testbit d 6) (N.testbit d 0).
 Definition toggle_dir (d : N) : N := N.lxor d 64.
